@@ -133,6 +133,24 @@ func ParseFile(fileName, content string) px.Value {
 	return dv
 }
 
+// DefinitionLocation returns the line in the given file where the first token of its content starts (line 1 when
+// there is no token). That is where the definition that ParseFile reads from the content begins.
+func DefinitionLocation(fileName, content string) issue.Location {
+	sr := utils.NewStringReader(content)
+	for {
+		switch sr.Peek() {
+		case ' ', '\t', '\n':
+			sr.Next()
+		case '#':
+			consumeLineComment(sr)
+		case 0:
+			return issue.NewLocation(fileName, 1, 0)
+		default:
+			return issue.NewLocation(fileName, sr.Line(), 0)
+		}
+	}
+}
+
 type parser struct {
 	d  px.Collector
 	sr *utils.StringReader
